@@ -179,6 +179,13 @@ func runC17FreeHere(t *testing.T, spec RunSpec) *Verdict {
 	if fatal {
 		m = c17Model{prog: c17FreeFatalWorkload(spec), lines: map[string]int{}}
 	}
+	if fs := spec.P("free_shape", -1); fs >= 0 {
+		// one of the shapes of the cooperative runs (spawn arguments, nested spawns, spawn loops, own globals,
+		// many arities, partial last lines) executed by real parallel goroutines under the race detector
+		ss := spec.clone()
+		ss.Params["shape"] = fs
+		m = c17Workload(ss)
+	}
 	prog, err := MustCompile(m.prog)
 	if err != nil {
 		v.fail(P, "infra", "", "", "free workload does not compile: "+err.Error())
@@ -212,7 +219,11 @@ func runC17FreeHere(t *testing.T, spec RunSpec) *Verdict {
 		v.fail(P, "wrong-result", "wait-result", "free:"+got.Kind, "free-mode run: Wait returned "+got.Kind+" "+firstLine(got.Msg))
 		return v
 	}
-	if d := diffMultiset(multiset(env.out.Lines()), m.lines); d != "" {
+	got2 := env.out.Lines()
+	if m.chunked {
+		got2 = env.out.Texts()
+	}
+	if d := diffMultiset(multiset(got2), m.lines); d != "" {
 		v.fail(P, "wrong-result", "output-multiset", "free", "free-mode run: output differs from the model: "+d)
 	}
 	return v
